@@ -17,7 +17,9 @@ def rule_scheduler_errors_are_backend_errors(ctx, r, h):
     idx = ctx.index
     res = ctx.resolver
     call_f = idx.func("gwf.backends.utils:call")
-    funcs = [call_f] + [f for f in idx.functions.values() if f.module.name == "gwf.backends.utils" and f.key != call_f.key and res.owned_by(f, [call_f.key])]
+    runner_keys = sorted({call_f.key} | {fi.key for fi in idx.command_runners().values()})
+    funcs = [idx.functions[k] for k in runner_keys if k in idx.functions] + [
+        f for f in idx.functions.values() if f.module.name == "gwf.backends.utils" and f.key not in runner_keys and res.owned_by(f, runner_keys)]
     BE = f"{EXC}.BackendError"
     n = 0
     for f in funcs:
